@@ -211,7 +211,7 @@ def strip_phase(ops: tuple) -> tuple:
     return tuple(o for o in ops if not (isinstance(o, tuple) and o and o[0] == "mul" and "phase" in str(o[1])))
 
 
-def cs_form(p: HP, inputs=("a", "b")):
+def cs_form(p: HP, inputs=("a", "b"), scalar_ok=False):
     """Recognise  red_r(B(X,Y)) * red_r(B(X,X))^-1/2 * red_r(B(Y,Y))^-1/2  where X, Y are linear images of the two inputs.
     Returns (ok, explanation, info) ; info = {'X': Lin, 'Y': Lin, 'reducer': str}."""
     if len(p.t) != 1:
@@ -219,6 +219,9 @@ def cs_form(p: HP, inputs=("a", "b")):
     (m, c), = p.t.items()
     reds = [(a, pw) for a, pw in m if isinstance(a, tuple) and a[0] == "red"]
     others = [(a, pw) for a, pw in m if not (isinstance(a, tuple) and a[0] in ("red", "const"))]
+    if others and scalar_ok and all(isinstance(a, tuple) and a[0] == "opaque" for a, pw in others):
+        # a factor that does not depend on the images (e.g. 1 / number-of-shells when the mean over shells is spelled as sum / count): the caller validates it
+        others = []
     if others:
         return False, f"unexpected factors {others!r}"[:300], {}
     num = [a for a, pw in reds if pw == 1]
